@@ -170,6 +170,21 @@ def module_states(name, tier, nseeds=None, with_short=True, with_synth=True):
             transitions += 1
             if x not in states:
                 states[x] = (1, 'synth:run', '')
+        # wrappers: the documented numbers of the number modules this module imports (the constituents it delegates to)
+        # are candidate inputs too -- e.g. a NIK is a valid 16-digit NPWP although no NPWP example near the top shows one
+        import types
+        for k_, dep in sorted(vars(m).items()):
+            if isinstance(dep, types.ModuleType) and dep.__name__.startswith('stdnum.') and dep.__name__ != name \
+                    and hasattr(dep, 'validate') and hasattr(dep, 'is_valid') and dep.__name__ not in core.GENERIC:
+                try:
+                    dsv = seedmod.seeds(dep.__name__, 2)
+                except Exception:
+                    dsv = []
+                for s_, v_ in dsv:
+                    for x in (v_, s_):
+                        transitions += 1
+                        if x not in states:
+                            states[x] = (0, 'synth:delegate', x)
         if name in ('stdnum.eu.vat', 'stdnum.vatin'):
             # dispatchers: a documented number of every constituent under its own code (27 states + XI + EL alias)
             from .checks import c09
